@@ -3,6 +3,7 @@ from ..core import rng_for, rand_digits, M64, ndig
 from ..arith import UTYPES, STYPES
 from ..oracles import cmd_pw, cmd_pwb
 
+THOROUGH_SEEDS = 30   # the thorough tier repeats its staged workload over this many derived seeds
 RULE = ('bases 0, +-1, +-2, single- and multi-digit, negative, exact powers of two incl. 2^k with k >= 256; exponents 0..=300 '
         'exhaustively through all six primitive exponent types and the four val/ref forms (small exponents for narrow types), '
         '2^k, 2^k+-1, random bit patterns up to 2^12 with small bases; BigUint exponents incl. the u64/u128 conversion edges with '
